@@ -7,35 +7,62 @@ RULE = ('all strings over a category/word alphabet (40 symbols, exhaustive up to
         'a construct-token alphabet (46 tokens, exhaustive up to L3), random strings of up to 40 symbols, every prefix / '
         'single-character deletion / adjacent transposition / insertion of every category symbol at every position of '
         'generated well-formed documents, and chains of up to 40 nested constructs (closed, truncated at every depth, one '
-        'closer removed); each in both tolerance modes under a 20 s watchdog (an expiry is re-run alone with 90 s). Oracle: the outcome is a tree whose str() '
+        'closer removed); each in both tolerance modes under a 10 s watchdog (an expiry is re-run alone with 45 s; normal cost < 0.1 s). Oracle: the outcome is a tree whose str() '
         'returns, EOFError(...expecting...), TypeError(...Malformed argument...) or one of the two documented '
         'AssertionErrors. Non-trivial = the two modes do not both accept the input, or it nests >=3 deep; distinct by string')
 ASSUMPTIONS = [
-    'a watchdog expiry (20 s) is re-run alone with 90 s before it is reported as a hang; after one confirmed hang further inputs get 5 s',
+    'a watchdog expiry (10 s) is re-run alone with 45 s before it is reported as a hang; after one confirmed hang further inputs get 3 s, '
+    'hanging inputs are not minimised, and after 6 expiries a worker stops judging (the verdict is already fixed)',
     'nesting depth is bounded by 40 as in the statement (Python recursion limit is not the parser\'s contract)',
 ]
 
-WATCHDOG = 20.0
-CONFIRM = 90.0
-_HANGS = {'confirmed': 0}
+import os
+import tempfile
+
+WATCHDOG = 10.0
+CONFIRM = 45.0
+_HANGS = {'confirmed': 0, 'hits': 0}
+MAX_HANG_HITS = 6
+
+
+def _marker():
+    # workers are forked from the runner: its pid identifies this run
+    return os.path.join(tempfile.gettempdir(), 'verif-c06-hang.%d' % os.getppid())
+
+
+def EXTRA(ctx, res):
+    try:
+        os.remove(os.path.join(tempfile.gettempdir(), 'verif-c06-hang.%d' % os.getpid()))
+    except OSError:
+        pass
+    return {}
 
 
 def check_string(s, sub, flags=None):
     outs = []
+    if not _HANGS['confirmed'] and os.path.exists(_marker()):
+        _HANGS['confirmed'] = 1          # another worker of this run has already confirmed a hang
+    if _HANGS['hits'] >= MAX_HANG_HITS:
+        return ['skipped-after-hangs', 'skipped-after-hangs']
     for tol in (0, 1):
         case = {'src': s, 'tolerance': tol, 'sub': sub}
         # once a hang has been confirmed in this process, further expiries are not re-run for 90 s each:
         # the verdict is already fixed and the remaining search must stay bounded
-        first = WATCHDOG if not _HANGS['confirmed'] else 5.0
+        first = WATCHDOG if not _HANGS['confirmed'] else 3.0
         try:
             out = H.with_watchdog(first, T.outcome, s, tol)
         except H.Timeout:
+            _HANGS['hits'] += 1
             if _HANGS['confirmed']:
                 raise H.Violation('C06:hang:tolerance%d' % tol, case, 'no result within %.0f s (a hang was already confirmed with %.0f s)' % (first, CONFIRM))
             try:
                 out = H.with_watchdog(CONFIRM, T.outcome, s, tol)
             except H.Timeout:
                 _HANGS['confirmed'] += 1
+                try:
+                    open(_marker(), 'w').close()
+                except OSError:
+                    pass
                 raise H.Violation('C06:hang:tolerance%d' % tol, case, 'no result within %.0f s (normal cost of such inputs: < 0.1 s)' % CONFIRM)
         if out[0] == 'leak':
             raise H.Violation('C06:leak:%s@%s' % (out[1], H.inner_frame(out[2])), case,
@@ -77,7 +104,7 @@ def _record(res, seen, v, symbols=None, joiner=''):
     if v.kind in seen:
         return
     seen.add(v.kind)
-    if symbols is not None:
+    if symbols is not None and not v.kind.startswith('C06:hang'):
         tol = v.case['tolerance']
 
         def fails(syms):
